@@ -269,6 +269,7 @@ pub fn run_c04(ctx: &mut Ctx) {
 
 /// C06: valid streams followed by 0..64 unrelated bytes.
 pub fn run_c06(ctx: &mut Ctx) {
+    if let Some(lines) = ctx.replay_lines.clone() { crate::c13::replay_ifbs(ctx, &lines); }
     if replay(ctx) { return; }
     let n = 160 * ctx.scale;
     for i in 0..n {
@@ -286,6 +287,11 @@ pub fn run_c06(ctx: &mut Ctx) {
         let sc = StreamCase { z, zlib: base.zlib, tag: format!("trailing:{}", base.tag), expect_len: base.expect_len, prefix_of_valid: false, trail: k };
         run_stream(ctx, &sc, 3, base.z.len() <= 120 && i % 5 == 0);
         if i % 4 == 0 && base.tag.starts_with("valid") { trailer_cuts(ctx, &base, &tail); }
+        // the streaming wrapper with its bytes (model `InflBytes`, op IFB; `C06x`): any chunking, any
+        // output sizes; at stream end exactly the stream's bytes have been consumed
+        if i % 2 == 1 && base.tag.starts_with("valid") && base.z.len() <= 20000 {
+            for rep in 0..2 { let seed = ctx.rng.next(); crate::c13::ifb_session_enc(ctx, &sc.z, base.zlib, "trailing", 0, None, rep, seed, Some(base.z.len())); }
+        }
     }
 }
 
